@@ -46,7 +46,11 @@ RULE_ADDED = (
               'Round 11: a fifth of the Ledger configurations run in legacy (--version-one) mod'
               'e. '
               ' '
-              'Round 12: version components of two and three digits (10, 40, 100). ')
+              'Round 12: version components of two and three digits (10, 40, 100). '
+              ' '
+              'Round 13: after a reconnection, a locked device that takes the PIN but whose sig'
+              'ner does not come up (still the bootloader, another app): the manager stops and '
+              'sends the PIN once. ')
 RULE = RULE + " " + RULE_ADDED.strip()
 ASSUMPTIONS = [
     "simulated device + fake transports trusted",
@@ -354,10 +358,12 @@ def unsafe_after_reconnection(acc, c, s, dev, bad, v1=False):
     s.bus.arm({0: Fault(rng.choice(["read_error", "write_error"]))})
     s.request(req)
     s.bus.arm({})
+    s.bus.arm_cmd({})     # (a fault planned for the bring-up's unlock that never took place)
     dev.pending_link = None
     how = rng.choice(["signer-version", "not-onboarded", "locked-no-retries",
                       "locked-no-retries", "locked-unsupported-ui", "locked-unsupported-ui",
-                      "locked-wrong-echo"])
+                      "locked-wrong-echo", "locked-signer-does-not-come-up",
+                      "locked-signer-does-not-come-up"])
     if how == "signer-version":
         dev.cfg["signer_version"] = rng.choice([(5, 5, 0), (6, 0, 0), (4, 4, 1), (5, 4, 2)])
     elif how == "not-onboarded":
@@ -375,6 +381,17 @@ def unsafe_after_reconnection(acc, c, s, dev, bad, v1=False):
         else:
             dev.cfg["ui_version"] = (5, 4, 1)
             dev.cfg["echo_ok"] = rng.choice(["last", "extended", "truncated"])
+    elif how == "locked-signer-does-not-come-up":
+        # locked, everything in order, the PIN is accepted - but what is there after the
+        # exit from the bootloader is not the signer (it is the bootloader still, or another
+        # app): the manager stops, having sent the PIN once
+        dev.mode = MODE_BOOTLOADER
+        dev.unlocked = False
+        dev.retries = 3
+        dev.cfg["echo_ok"] = True
+        dev.cfg["ui_version"] = (5, 4, 1)
+        dev.cfg["unlock_result"] = True
+        dev.cfg["post_exit_mode"] = rng.choice([MODE_BOOTLOADER, MODE_BOOTLOADER, 0x04, 0x00])
     else:
         dev.mode = MODE_BOOTLOADER
         dev.unlocked = False
@@ -400,7 +417,15 @@ def unsafe_after_reconnection(acc, c, s, dev, bad, v1=False):
         asked.append(req["command"] + ("/" + "".join(sorted(req.get("message", {})))[:12]
                                        if req["command"] == "sign" else ""))
         r, e, _ = s.request(req)
-        if how.startswith("locked-") and how != "locked-no-retries" and any(
+        if how == "locked-signer-does-not-come-up":
+            n_un = sum(1 for ev in s.bus.apdus(mark0)
+                       if ev["apdu"] is not None and ev["apdu"][1] == 0xFE)
+            if n_un > 1:
+                bad("unlock-sent-%d-times-after-reconnection-to-a-device-whose-signer-does-"
+                    "not-come-up" % n_un, request_no=k, first_repair_cut_by=cut,
+                    mode_after_exit=dev.cfg["post_exit_mode"])
+                return
+        elif how.startswith("locked-") and how != "locked-no-retries" and any(
                 ev["apdu"] is not None and ev["apdu"][1] in (0x41, 0xFE)
                 for ev in s.bus.apdus(mark0)):
             bad("pin-or-unlock-sent-after-reconnection-to-a-device-with-%s" % how[7:],
@@ -412,8 +437,8 @@ def unsafe_after_reconnection(acc, c, s, dev, bad, v1=False):
             return
         if e is not None:
             return      # the manager stopped: fine
-    if how == "locked-no-retries":
-        # one retry left: the bring-up of the repair ends in "stop" (at the latest on the
+    if how in ("locked-no-retries", "locked-signer-does-not-come-up"):
+        # one retry left / no signer after the unlock: the bring-up of the repair ends in "stop" (at the latest on the
         # request after the one whose repair was cut short)
         bad("manager-kept-running-after-a-repair-that-must-stop-it", requests=asked,
             first_repair_cut_by=cut)
